@@ -582,6 +582,7 @@ impl Compiler {
                         (None, None) => {}
                     }
 
+                    self.compile_try_ends_for_loop_exit()?;
                     self.push_op(Jump, &[]);
                     self.push_loop_jump_placeholder()?;
 
@@ -597,6 +598,7 @@ impl Compiler {
                     if let Some(result_register) = loop_result_register {
                         self.push_op(SetNull, &[result_register]);
                     }
+                    self.compile_try_ends_for_loop_exit()?;
                     self.push_jump_back_op(JumpBack, &[], loop_start_ip)?;
 
                     CompileNodeOutput::none()
@@ -2177,6 +2179,26 @@ impl Compiler {
         }
     }
 
+    // Clears the catch points of the try blocks that are left by a `break` or `continue`
+    //
+    // Without this the catch points would stay registered after the loop has been exited,
+    // and errors thrown later on in the frame would end up in the abandoned catch block.
+    fn compile_try_ends_for_loop_exit(&mut self) -> Result<()> {
+        let open_try_blocks = self.frame().open_try_blocks();
+        let open_at_loop_start = match self.frame().current_loop() {
+            Some(loop_info) => loop_info.open_try_blocks,
+            None => return Ok(()),
+        };
+
+        // A dummy byte is appended to TryEnd as required by the bytecode format.
+        let dummy_byte = 0;
+        for _ in open_at_loop_start..open_try_blocks {
+            self.push_op_without_span(Op::TryEnd, &[dummy_byte]);
+        }
+
+        Ok(())
+    }
+
     fn compile_try_expression(
         &mut self,
         try_expression: &AstTry,
@@ -2205,7 +2227,12 @@ impl Compiler {
             _ => ResultRegister::None,
         };
 
-        self.compile_node(*try_block, ctx.with_register(try_result_register))?;
+        // Loops that are exited from within the try block need to clear the catch point
+        self.frame_mut().try_block_opened();
+        let try_block_result =
+            self.compile_node(*try_block, ctx.with_register(try_result_register));
+        self.frame_mut().try_block_closed();
+        try_block_result?;
 
         // Clear the catch point at the end of the try block
         // - if the end of the try block has been reached then the catch block is no longer needed.
